@@ -6,11 +6,12 @@ export GOFLAGS=-mod=mod GOPROXY=off GOSUMDB=off GOTOOLCHAIN=local
 G=/root/go/pkg/mod/golang.org/toolchain@v0.0.1-go1.25.11.linux-amd64/bin/go
 [ -x "$G" ] || G=/opt/veriftools/go1.26.8/bin/go
 [ -x "$G" ] || G=go1.26.8
-cd /verif/sim
+HERE=$(cd "$(dirname "$0")" && pwd)
+cd $HERE/sim
 cp /repo/go.sum go.sum
-mkdir -p /verif/bin
+mkdir -p $HERE/bin
 if [ "$1" = "race" ]; then
-  $G test -c -race -tags verif -o /verif/bin/lssim-race.test .
+  $G test -c -race -tags verif -o $HERE/bin/lssim-race.test .
 else
-  $G test -c -tags verif -o /verif/bin/lssim.test .
+  $G test -c -tags verif -o $HERE/bin/lssim.test .
 fi
